@@ -24,7 +24,9 @@ def describe(tier):
                 "evaluator R3 (tables R1, hints/FCs NEUTRAL, juxtaposition copies the partner's state) applied to the implementation's own parse "
                 "tree == evaluate_requirement_constraint_tree(...).conditions_fulfilled, and requirement_constraint_evaluation(expr) "
                 "(through injected evaluators) == mapping F->(True,conditional) N->(True,unconditional) U->(False,conditional) "
-                "UNKNOWN->(None,None). A (expression, assignment) pair is non-trivial if the expression has >= 1 operator and the assignment "
+                "UNKNOWN->(None,None). Expressions with <= 3 leaves are additionally evaluated with the answers delivered through the library's own "
+                "DictBased* evaluators (evaluator_factory), its ContentEvaluationResultBased* evaluators and user-style method-based "
+                "evaluators with per-instance state (a new instance per assignment). A (expression, assignment) pair is non-trivial if the expression has >= 1 operator and the assignment "
                 "contains UNKNOWN or the expression contains a hint/FC.",
         "bounds": {"sizes": BOUNDS[tier]},
         "exhaustive": True,
@@ -32,8 +34,19 @@ def describe(tier):
     }
 
 
+MODES = ("hardcoded", "cer", "methods")
+
+
 def plan(tier, seed):
     items = []
+    # the same executions through the evaluators the library ships (dict based, content-evaluation-result based) and through
+    # user-style method based evaluators with per-instance state
+    for mode in MODES:
+        for n in (1, 2, 3) if tier == "quick" else (1, 2, 3, 4):
+            parts = {1: 1, 2: 1, 3: 6, 4: 64}[n]
+            for p in range(parts):
+                items.append({"fam": "modes", "mode": mode, "n": n, "lab": "all" if n <= 3 else "distinct", "part": p, "parts": parts,
+                              "seed": seed})
     for n, lab in BOUNDS[tier]:
         parts = 1 if n <= 2 else (8 if n == 3 else NPART * (4 if n >= 5 else 1))
         for p in range(parts):
@@ -84,10 +97,62 @@ def check_expr(expr, only_assign=None):
     return out, pairs, nontrivial, outcomes
 
 
+def check_expr_mode(expr, mode, only_assign=None):
+    """requirement_constraint_evaluation(expr) with the answers delivered through `mode` == reference mapping"""
+    from mc import impl_modes as M
+
+    I = X.init()
+    out = []
+    pr = X.parse(expr)
+    if pr[0] == "exc":
+        return [{"kind": "parse-failed", "case": {"expr": expr, "mode": mode}, "expected": "a tree", "observed": pr[1], "msg": expr}], 0
+    _, T, tt = pr
+    rckeys, fckeys, hkeys = R3.keys_of(tt, "rc"), R3.keys_of(tt, "fc"), R3.keys_of(tt, "hint")
+    n = 0
+    for a in ([only_assign] if only_assign is not None else X.assignments(rckeys)):
+        n += 1
+        exp = R3.outcome(R3.state(tt, a))
+        case = {"expr": expr, "assign": a, "mode": mode}
+        r = I.try_call(lambda: M.run(mode, lambda: I.requirement_constraint_evaluation(expr), rc=a,
+                                     fc={k: (True, None) for k in fckeys}, hints={k: f"Hinweis {k}" for k in hkeys}))
+        if r[0] == "exc":
+            out.append({"kind": "evaluation-raised/" + mode, "case": case, "expected": list(exp), "observed": r[1], "msg": expr})
+        elif (r[1].requirement_constraints_fulfilled, r[1].requirement_is_conditional) != exp:
+            out.append({"kind": "outcome-mapping/" + mode, "case": case, "expected": list(exp),
+                        "observed": [r[1].requirement_constraints_fulfilled, r[1].requirement_is_conditional],
+                        "msg": f"{expr} under {a} through the {mode} evaluators"})
+    return out, n
+
+
 def run_item(item):
     X.init()
     r = Result()
     pools = X.pools(item["seed"])
+    if item.get("fam") == "modes":
+        from mc import impl_modes as M
+
+        try:
+            i = -1
+            for ast in A.asts(item["n"], item["lab"], pools=pools):
+                if not A.is_valid(ast):
+                    continue
+                i += 1
+                if i % item["parts"] != item["part"]:
+                    continue
+                expr = X.render(ast, item["seed"])
+                vs, n = check_expr_mode(expr, item["mode"])
+                r.evaluations += n
+                r.states += n
+                r.transitions += n
+                r.traces += 1
+                r.nontrivial += n if item["n"] >= 2 else 0
+                r.stat("mode_" + item["mode"], n)
+                for v in vs:
+                    r.violation(v["kind"], v["case"], v["expected"], v["observed"], v["msg"])
+                r.sample({"expr": expr, "mode": item["mode"], "assignments": n})
+        finally:
+            M.restore()
+        return r
     i = -1
     for ast in A.asts(item["n"], item["lab"], pools=pools):
         if not A.is_valid(ast):
@@ -112,4 +177,11 @@ def run_item(item):
 
 
 def replay(case):
+    if case.get("mode"):
+        from mc import impl_modes as M
+
+        try:
+            return check_expr_mode(case["expr"], case["mode"], case.get("assign"))[0]
+        finally:
+            M.restore()
     return check_expr(case["expr"], case.get("assign"))[0]
